@@ -1,6 +1,7 @@
 //! verif-harness: drives the real incan code for the correspondence checks.
 //! usage: verif-harness <property> <tier> <seed> <outfile> [extra...]
 mod c04;
+mod c05;
 mod c19;
 mod util;
 
@@ -15,6 +16,7 @@ fn main() {
     let mut out = util::Out::create(outfile);
     match prop.as_str() {
         "c04" => c04::run(&mut out, tier, seed),
+        "c05" => c05::run(&mut out, tier, seed),
         "c19" => c19::run(&mut out, tier, seed),
         _ => {
             eprintln!("unknown property {prop}");
